@@ -2,9 +2,14 @@
    terms, HT satisfaction of ground instances, stable models as equilibrium models.
    This is the ORACLE of C01 / C04 / C08 - part of the trusted spec layer; kept short.
 
-   Division and modulo follow the semantics the source itself cites (tau_star.rs: "Follows the
-   corrected arXiv paper ... Not Abstract Gringo compliant in negative divisor edge cases"):
-   n1 / n2 and n1 \ n2 are defined only for n2 > 0, as floor quotient and non-negative remainder. *)
+   READING OF / AND \ (finding F24).  n1 / n2 and n1 \ n2 are defined only for n2 > 0, as floor
+   quotient and non-negative remainder.  This is ANTHEM'S OWN reading: the two clauses below are a
+   transcription of the formula tau_star.rs builds (J != 0 & R >= 0 & R < J; its comment: "Follows
+   the corrected arXiv paper ... Not Abstract Gringo compliant in negative divisor edge cases"),
+   not the reading of Abstract Gringo (floor for every n2 <> 0) nor of clingo (truncation).  So every
+   theorem with this oracle is a statement w.r.t. anthem's own reading of / and \.  The published
+   readings, the exact deviation sets and the refutation of C01 for them inside the class are in
+   Sem/AspRefGringo.v, Proofs/DivisionDeviation.v and the second half of Properties/C01.v. *)
 From Coq Require Import List Ascii String ZArith Bool Lia.
 From Anthem Require Import Syntax.Fol Syntax.Asp Sem.Domain Sem.Sat.
 Import ListNotations.
@@ -34,7 +39,8 @@ Fixpoint vals (sg : assignment) (t : term) (v : gval) : Prop :=
                        (n1 <= k <= n2)%Z /\ v = VNum k
   end.
 
-(* clingo's truncating division, for the record (NOT what anthem implements; see header) *)
+(* clingo's truncating division, for the record (NOT what anthem implements; see header and
+   Sem/AspRefGringo.v qr_clingo, which supersedes these two definitions) *)
 Definition trunc_div (n1 n2 : Z) : Z := Z.quot n1 n2.
 Definition trunc_mod (n1 n2 : Z) : Z := Z.rem n1 n2.
 Example trunc_differs_neg_dividend : trunc_div (-7) 2 = (-3)%Z /\ ((-7) / 2 = -4)%Z.
